@@ -4,23 +4,36 @@ prints the seed -> detecting site table (DESIGN.md 8.6)."""
 import os, sys, json, subprocess, re
 root = "/verif/seeded"
 rows = []
-ids = sys.argv[1:] or sorted(d for d in os.listdir(root) if re.match(r"^C\d+-\d+$", d))
-for sid in ids:
-    d = os.path.join(root, sid)
-    meta = json.load(open(d + "/meta.json"))
-    pid = sid.split("-")[0]
-    r = subprocess.run(["/verif/tools/mutcheck.py", d + "/patch.diff", pid], stdout=subprocess.PIPE, stderr=subprocess.STDOUT)
-    out = r.stdout.decode(errors="replace")
-    sites = re.findall(r"site=(\S+)", out)
-    meta["detected_by_quick_check"] = r.returncode == 0
-    meta["detecting_sites"] = sorted(set(sites))[:6]
-    notes = os.path.join(d, "notes.md")
-    if os.path.exists(notes):
-        txt = open(notes, errors="replace").read()
-        m = re.search(r"(?is)(trigger|what.*needed|manifest)[^\n]*\n(.{0,900})", txt)
-        meta["needs_to_manifest"] = (m.group(2) if m else txt[:900]).strip()
-        meta["notes_file"] = "notes.md (written by the sub-agent that proposed the change)"
-    meta["what_was_run"] = "tools/verify_seed.py %s (scratch worktree: git apply, make, make check, demo with/without); tools/mutcheck.py seeded/%s/patch.diff %s" % (sid, sid, pid)
-    json.dump(meta, open(d + "/meta.json", "w"), indent=1)
-    rows.append((sid, "detected" if r.returncode == 0 else "MISSED", ", ".join(sorted(set(sites))[:3])))
-    print("| %s | %s | %s |" % rows[-1], flush=True)
+args = sys.argv[1:]
+jobs = 1
+if args and args[0].startswith("-j"):
+    jobs = int(args[0][2:] or 2)
+    args = args[1:]
+ids = args or sorted(d for d in os.listdir(root) if re.match(r"^C\d+-\d+$", d))
+
+
+def one(sid):
+        d = os.path.join(root, sid)
+        meta = json.load(open(d + "/meta.json"))
+        pid = sid.split("-")[0]
+        r = subprocess.run(["/verif/tools/mutcheck.py", d + "/patch.diff", pid], stdout=subprocess.PIPE, stderr=subprocess.STDOUT)
+        out = r.stdout.decode(errors="replace")
+        sites = re.findall(r"site=(\S+)", out)
+        meta["detected_by_quick_check"] = r.returncode == 0
+        meta["detecting_sites"] = sorted(set(sites))[:6]
+        notes = os.path.join(d, "notes.md")
+        if os.path.exists(notes):
+            txt = open(notes, errors="replace").read()
+            m = re.search(r"(?is)(trigger|what.*needed|manifest)[^\n]*\n(.{0,900})", txt)
+            meta["needs_to_manifest"] = (m.group(2) if m else txt[:900]).strip()
+            meta["notes_file"] = "notes.md (written by the sub-agent that proposed the change)"
+        meta["what_was_run"] = "tools/verify_seed.py %s (scratch worktree: git apply, make, make check, demo with/without); tools/mutcheck.py seeded/%s/patch.diff %s" % (sid, sid, pid)
+        json.dump(meta, open(d + "/meta.json", "w"), indent=1)
+        row = (sid, "detected" if r.returncode == 0 else "MISSED", ", ".join(sorted(set(sites))[:3]))
+        print("| %s | %s | %s |" % row, flush=True)
+        return row
+
+
+from multiprocessing.pool import ThreadPool
+rows = ThreadPool(jobs).map(one, ids)
+print("missed:", [r[0] for r in rows if r[1] != "detected"])
